@@ -128,6 +128,9 @@ func equal(v1, v2 reflect.Value, ulp uint) bool {
 				return false
 			}
 		case reflect.Slice:
+			if f1.Len() != f2.Len() {
+				return false
+			}
 			for i := 0; i < f1.Len(); i++ {
 				if !scalar.EqualWithinULP(f1.Index(i).Float(), f2.Index(i).Float(), ulp) {
 					return false
